@@ -210,15 +210,15 @@ def register(reg):
                  ensures=['self.back_referenced_descriptors is None', 'self.bitmap is None', 'self.bitmapped_descriptors is None'],
                  serves=['C07'], note='235000 cancels back references, bitmap and selection'))
     add(Contract(M + 'CoderState.recall_bitmap', {'self': S}, returns=ListT(VAL),
-                 requires=['self.bitmapped_descriptors != None'],
+                 requires=['@input self.bitmapped_descriptors != None'],
                  modifies=['self.next_bitmapped_descriptor'],
                  ensures=['fresh(self.next_bitmapped_descriptor)', 'self.next_bitmapped_descriptor.lst is self.bitmapped_descriptors',
                           'self.next_bitmapped_descriptor.pos == 0', 'result is self.bitmap'],
                  serves=['C07'], note='237000: the selection of the most recent bitmap is restarted from its first zero bit'))
     CUR = 'self.next_bitmapped_descriptor'
     add(Contract(M + 'CoderState.add_bitmap_link', {'self': S},
-                 requires=['%s != None' % CUR, 'self.bitmap_links != None', 'self.decoded_descriptors != None',
-                           '%s.pos < len(%s.lst)' % (CUR, CUR)],
+                 requires=['@input %s != None' % CUR, 'self.bitmap_links != None', 'self.decoded_descriptors != None',
+                           '@input %s.pos < len(%s.lst)' % (CUR, CUR)],
                  modifies=['dict(self.bitmap_links)', '%s.pos' % CUR],
                  ensures=['haskey(self.bitmap_links, len(self.decoded_descriptors))',
                           'dval(self.bitmap_links, len(self.decoded_descriptors)) == select(%s.lst, old(%s.pos))[0]' % (CUR, CUR),
@@ -328,10 +328,10 @@ def register(reg):
                  {'self': CD, 'state': S, 'bit_operator': BO, 'descriptor': Ref('OperatorDescriptor')},
                  requires=['state.decoded_descriptors != None', 'descriptor != None',
                            # 204000 closes an open 204YYY; 237000 recalls an existing bitmap (well-formed templates)
-                           'implies(%s == 204 and %s == 0, len(state.nbits_of_associated) >= 1)' % (CODE, Y),
-                           'implies(%s == 237 and %s == 0, state.bitmapped_descriptors != None)' % (CODE, Y),
+                           '@input implies(%s == 204 and %s == 0, len(state.nbits_of_associated) >= 1)' % (CODE, Y),
+                           '@input implies(%s == 237 and %s == 0, state.bitmapped_descriptors != None)' % (CODE, Y),
                            # a marker operator needs a current selection with a zero bit left; no 204 scope around markers
-                           'implies((%s == 222 or %s == 223 or %s == 224 or %s == 225 or %s == 232) and %s != 0, '
+                           '@input implies((%s == 222 or %s == 223 or %s == 224 or %s == 225 or %s == 232) and %s != 0, '
                            'state.next_bitmapped_descriptor != None and state.next_bitmapped_descriptor.pos < len(state.next_bitmapped_descriptor.lst) '
                            'and state.bitmap_links != None and len(state.nbits_of_associated) == 0 and '
                            'select(state.next_bitmapped_descriptor.lst, state.next_bitmapped_descriptor.pos)[1] != None and '
@@ -375,7 +375,12 @@ def register(reg):
                        'dval(state.bitmap_links, %s) == old(select(state.next_bitmapped_descriptor.lst, state.next_bitmapped_descriptor.pos)[0])' % L0,
                        'state.next_bitmapped_descriptor.pos == old(state.next_bitmapped_descriptor.pos) + 1',
                        'typeis(asref(ghat(state, "pdesc", %s), "Descriptor"), "MarkerDescriptor")' % N0,
-                       'asref(ghat(state, "pdesc", %s), "MarkerDescriptor").marker_id == descriptor.id' % N0, ASSOC_SAME]),
+                       'asref(ghat(state, "pdesc", %s), "MarkerDescriptor").marker_id == descriptor.id' % N0, ASSOC_SAME,
+                       'select(state.decoded_descriptors, %s) is asref(ghat(state, "pdesc", %s), "Descriptor")' % (L0, N0),
+                       'list_eq_upto(state.decoded_descriptors, %s)' % L0, earlier_calls_kept(),
+                       'forall(k, 0, %s, haskey(state.bitmap_links, k) == old(haskey(state.bitmap_links, k)) and '
+                       'dval(state.bitmap_links, k) == old(dval(state.bitmap_links, k)))' % L0,
+                       'unchanged(state, "idx_value", "status_qa_info_follows")']),
                      ('235', '%s == 235' % CODE,
                       ['state.back_referenced_descriptors is None', 'state.bitmap is None', 'state.bitmapped_descriptors is None',
                        only('back_referenced_descriptors', 'bitmap', 'bitmapped_descriptors'), NOCALL, NODESC, ASSOC_SAME]),
@@ -409,7 +414,7 @@ def register(reg):
     ERRS = {'PyBufrKitError': None, 'ValueError': None, 'AssertionError': None, 'IndexError': None, 'TypeError': None}
     elem_requires = ['state.decoded_descriptors != None', 'descriptor != None', 'state.bitmap_links != None',
                      # a class-33 value after 222000 needs a zero bit left in the current selection
-                     'implies(%s == 33 and (state.status_qa_info_follows == 1 or state.status_qa_info_follows == 2), '
+                     '@input implies(%s == 33 and (state.status_qa_info_follows == 1 or state.status_qa_info_follows == 2), '
                      '%s != None and %s.pos < len(%s.lst))' % (X, CUR, CUR, CUR)]
     NUMERIC_UNIT = 'descriptor.unit != "CCITT IA5" and descriptor.unit != "FLAG TABLE" and descriptor.unit != "CODE TABLE"'
     add(Contract(M + 'Coder.process_element_descriptor', {'self': CD, 'state': S, 'bit_operator': BO, 'descriptor': ED},
@@ -471,10 +476,10 @@ def register(reg):
     BD = 'old(select(%s.lst, %s.pos)[1])' % (CUR, CUR)
     MD = 'asref(ghat(state, "pdesc", %s), "MarkerDescriptor")' % N0
     marker_requires = ['state.decoded_descriptors != None', 'descriptor != None', 'state.bitmap_links != None',
-                       '%s != None and %s.pos < len(%s.lst)' % (CUR, CUR, CUR), 'len(state.nbits_of_associated) == 0',
-                       'select(%s.lst, %s.pos)[1] != None' % (CUR, CUR),
-                       'typeis(select(%s.lst, %s.pos)[1], "ElementDescriptor")' % (CUR, CUR),
-                       '(select(%s.lst, %s.pos)[1].id // 1000) %% 100 != 33' % (CUR, CUR)]
+                       '@input %s != None and %s.pos < len(%s.lst)' % (CUR, CUR, CUR), '@input len(state.nbits_of_associated) == 0',
+                       '@input select(%s.lst, %s.pos)[1] != None' % (CUR, CUR),
+                       '@input typeis(select(%s.lst, %s.pos)[1], "ElementDescriptor")' % (CUR, CUR),
+                       '@input (select(%s.lst, %s.pos)[1].id // 1000) %% 100 != 33' % (CUR, CUR)]
     marker_ensures = [
         'gh(state, "nprims") == %s + 1' % N0, earlier_calls_kept(),
         'haskey(state.bitmap_links, %s)' % L0, 'dval(state.bitmap_links, %s) == old(select(%s.lst, %s.pos)[0])' % (L0, CUR, CUR),
@@ -506,6 +511,10 @@ def register(reg):
                      note='k-th bitmapped value -> element of the k-th zero bit; 225255: width + 1, reference -2**width'))
 
     # ------------------------------------------------------------------------------------------------------------
+    # the template walk (C01, C12, C14): one iteration of Coder.process_members == one step of the FM-94 walk
+    register_walk(reg, dict(X=X, ASSOC=ASSOC, K1=K1, NBITS=NBITS, SCALE=SCALE, NUMERIC_UNIT=NUMERIC_UNIT))
+
+    # ------------------------------------------------------------------------------------------------------------
     def v(j):
         return 'select(values, %s)' % j
 
@@ -521,3 +530,149 @@ def register(reg):
                  ensures=[x.replace('mn', 'result[0]').replace('mx', 'result[1]') for x in mm_inv('len(values)')],
                  serves=['C02', 'C05'], pure=True,
                  note='minimum and maximum of the entries that are not None; (None, None) when all are'))
+
+
+def register_walk(reg, E):
+    """Coder.process_members and the composite descriptors.  The summary contract (what a caller of a nested walk may rely on) says
+    that a walk only appends: descriptors, primitive calls, stream bits, links of new positions; the step contract of the loop pins
+    the dispatch order of the FM-94 walk for one arbitrary member."""
+    add = reg.add
+    DD, VALL = 'state.decoded_descriptors', 'state.decoded_values_all_subsets'
+    bbs = BitmapSpec('state')
+    WF = (['state != None', 'bit_operator != None', '%s != None' % DD, 'state.bitmap_links != None', '%s != None' % VALL, 'len(%s) >= 1' % VALL,
+           'implies(not state.is_compressed, state.decoded_values != None)'] + bbs.wf())
+    STREAM = ['bit_operator.bit_stream.pos', 'bit_operator.bit_stream.bits', 'bit_operator.bit_stream.len']
+    MOD = ['state.*', 'list(state.nbits_of_associated)', 'dict(state.new_refvals)', 'dict(state.bitmap_links)',
+           'state.next_bitmapped_descriptor.pos'] + PRIM_MOD + STREAM
+    # what survives a walk (old = entry of the function / of the loop iteration)
+    KEPT = ['gh(state, "nprims") >= old(gh(state, "nprims"))', earlier_calls_kept('old(gh(state, "nprims"))'),
+            'len(%s) >= old(len(%s))' % (DD, DD), 'list_eq_upto(%s, old(len(%s)))' % (DD, DD),
+            '%s is old(%s)' % (DD, DD), 'state.bitmap_links is old(state.bitmap_links)', 'state.decoded_values is old(state.decoded_values)',
+            '%s is old(%s)' % (VALL, VALL), 'same_list(%s)' % VALL,
+            'state.decoded_descriptors_all_subsets is old(state.decoded_descriptors_all_subsets)',
+            'state.bitmap_links_all_subsets is old(state.bitmap_links_all_subsets)',
+            'state.is_compressed == old(state.is_compressed)', 'state.n_subsets == old(state.n_subsets)', 'state.idx_subset == old(state.idx_subset)',
+            # the 204 stack is one object for the whole walk; the new-reference map and the bitmap cursor are the old ones or newer objects
+            'state.nbits_of_associated is old(state.nbits_of_associated)',
+            'state.new_refvals is old(state.new_refvals) or fresh(state.new_refvals)',
+            'state.next_bitmapped_descriptor == None or state.next_bitmapped_descriptor is old(state.next_bitmapped_descriptor) or '
+            'fresh(state.next_bitmapped_descriptor)',
+            'forall(k, 0, old(len(%s)), haskey(state.bitmap_links, k) == old(haskey(state.bitmap_links, k)) and '
+            'dval(state.bitmap_links, k) == old(dval(state.bitmap_links, k)))' % DD,
+            'bit_operator.bit_stream.pos >= old(bit_operator.bit_stream.pos)', 'bit_operator.bit_stream.len >= old(bit_operator.bit_stream.len)',
+            'prefix_same(bit_operator.bit_stream.bits, old(bit_operator.bit_stream.bits), old(bit_operator.bit_stream.len))']
+    # the same identity facts relative to the entry of a loop (what the loop's own frame check needs)
+    LOOP_ID = ['state.nbits_of_associated is entry(state.nbits_of_associated)',
+               'state.new_refvals is entry(state.new_refvals) or newer(state.new_refvals)',
+               'state.next_bitmapped_descriptor == None or state.next_bitmapped_descriptor is entry(state.next_bitmapped_descriptor) or '
+               'newer(state.next_bitmapped_descriptor)',
+               'gh(state, "nprims") >= entry(gh(state, "nprims"))', 'len(%s) >= entry(len(%s))' % (DD, DD),
+               'forall(k, 0, entry(gh(state, "nprims")), ghat(state, "pdesc", k) == entry(ghat(state, "pdesc", k)))']
+    ERR = {k: None for k in ('PyBufrKitError', 'AssertionError', 'NotImplementedError', 'ValueError', 'StopIteration', 'IndexError', 'TypeError',
+                             'KeyError', 'AttributeError')}
+    X, ASSOC, K1, NBITS, SCALE, NUMERIC_UNIT = [E[k].replace('descriptor', 'member') for k in ('X', 'ASSOC', 'K1', 'NBITS', 'SCALE', 'NUMERIC_UNIT')]
+    N0_ = 'old(gh(state, "nprims"))'
+    L0_ = 'old(len(%s))' % DD
+    DNP = 'state.data_not_present_count'
+    IS_ELEM = 'typeis(member, "ElementDescriptor")'
+    SKIP = '(old(%s) != 0 and %s and not ((1 <= %s and %s <= 9) or %s == 31))' % (DNP, IS_ELEM, X, X, X)
+    NEWREF = '(not %s and old(state.nbits_of_new_refval) != 0 and %s)' % (SKIP, IS_ELEM)
+    SKIPLOC = '(not %s and not %s and old(state.nbits_of_skipped_local_descriptor) != 0)' % (SKIP, NEWREF)
+    DISPATCH = '(not %s and not %s and not %s)' % (SKIP, NEWREF, SKIPLOC)
+    DNP_AFTER = 'ite(old(%s) != 0, old(%s) - 1, 0)' % (DNP, DNP)
+    KNOWN = ('(%s or typeis(member, "FixedReplicationDescriptor") or typeis(member, "DelayedReplicationDescriptor") or '
+             'typeis(member, "OperatorDescriptor") or typeis(member, "SequenceDescriptor"))' % IS_ELEM)
+    RECURSES = '(typeis(member, "FixedReplicationDescriptor") or typeis(member, "DelayedReplicationDescriptor") or typeis(member, "SequenceDescriptor"))'
+    OP = '(%s and typeis(member, "OperatorDescriptor"))' % DISPATCH
+    CODE, Y = 'member.id // 1000', 'member.id % 1000'
+    EL = '(%s and %s)' % (DISPATCH, IS_ELEM)
+    SK = 'asref(ghat(state, "pdesc", %s), "Descriptor")' % N0_
+    steps = [
+        # 221YYY countdown: an element outside classes 1-9 and 31 is passed over -- no value, no descriptor, no bits, no register but the count
+        'implies(%s, %s == old(%s) - 1 and unchanged(state, "data_not_present_count") and gh(state, "nprims") == %s and same_ghosts(state) '
+        'and len(%s) == %s and bit_operator.bit_stream.pos == old(bit_operator.bit_stream.pos) and '
+        'bit_operator.bit_stream.len == old(bit_operator.bit_stream.len))' % (SKIP, DNP, DNP, N0_, DD, L0_),
+        # 203YYY in force: an element descriptor defines its new reference value of YYY bits
+        'implies(%s, gh(state, "nprims") == %s + 1 and ghat(state, "prim", %s) == %d and asref(ghat(state, "pdesc", %s), "Descriptor") is member '
+        'and ghat(state, "pa", %s) == old(state.nbits_of_new_refval) and len(%s) == %s + 1 and select(%s, %s) is member and %s == %s)'
+        % (NEWREF, N0_, N0_, P_NEWREF, N0_, N0_, DD, L0_, DD, L0_, DNP, DNP_AFTER),
+        # 206YYY: the next descriptor of whatever kind is a YYY-bit unsigned field labelled S + its id, and 206 is spent
+        'implies(%s, gh(state, "nprims") == %s + 1 and ghat(state, "prim", %s) == %d and ghat(state, "pa", %s) == old(state.nbits_of_skipped_local_descriptor) '
+        'and typeis(%s, "SkippedLocalDescriptor") and %s.id == member.id and state.nbits_of_skipped_local_descriptor == 0 and '
+        'len(%s) == %s + 1 and select(%s, %s) is %s and %s == %s)'
+        % (SKIPLOC, N0_, N0_, P_CODEFLAG, N0_, SK, SK, DD, L0_, DD, L0_, SK, DNP, DNP_AFTER),
+        # otherwise dispatch on the exact class; an element is coded by the element rules (widths / scale / reference of the registers)
+        'implies(%s, gh(state, "nprims") == %s + 1 and asref(ghat(state, "pdesc", %s), "Descriptor") is member and %s == %s and '
+        'len(%s) == %s + 1 + ite(%s, 1, 0) and select(%s, len(%s) - 1) is member)' % (EL, K1, K1, DNP, DNP_AFTER, DD, L0_, ASSOC, DD, DD),
+        'implies(%s and %s, ghat(state, "prim", %s) == %d and ghat(state, "pa", %s) == old(sumof(state.nbits_of_associated)) and '
+        'typeis(asref(ghat(state, "pdesc", %s), "Descriptor"), "AssociatedDescriptor") and asref(ghat(state, "pdesc", %s), "Descriptor").id == member.id)'
+        % (EL, ASSOC, N0_, P_CODEFLAG, N0_, N0_, N0_),
+        'implies(%s and member.unit == "CCITT IA5", ghat(state, "prim", %s) == %d and '
+        'ghat(state, "pa", %s) == ite(old(state.new_nbytes) != 0, old(state.new_nbytes), member.nbits // 8))' % (EL, K1, P_STRING, K1),
+        'implies(%s and (member.unit == "FLAG TABLE" or member.unit == "CODE TABLE"), ghat(state, "prim", %s) == %d and ghat(state, "pa", %s) == member.nbits)'
+        % (EL, K1, P_CODEFLAG, K1),
+        'implies(%s and %s and not old(haskey(state.new_refvals, member.id)), ghat(state, "prim", %s) == %d and ghat(state, "pa", %s) == %s and '
+        'Eq(ghat(state, "pf", %s), 1.0 * 10 ** %s) and ghat(state, "pc", %s) == member.refval * old(state.bsr_modifier[2]))'
+        % (EL, NUMERIC_UNIT, K1, P_NUMERIC, K1, NBITS, K1, SCALE, K1),
+        'implies(%s and %s and old(haskey(state.new_refvals, member.id)), ghat(state, "prim", %s) == %d and ghat(state, "pa", %s) == %s and '
+        'ghat(state, "pc", %s) == old(state.bsr_modifier[2]))' % (EL, NUMERIC_UNIT, K1, P_NUMERIC_NEWREF, K1, NBITS, K1),
+        # a descriptor of no known class cannot be passed over: the iteration does not complete normally
+        'not (%s and not %s)' % (DISPATCH, KNOWN),
+        # operators update their register and nothing else (the cases that do not involve the bitmap machinery)
+        'implies(%s and %s == 201, state.nbits_offset == ite(%s != 0, %s - 128, 0) and gh(state, "nprims") == %s and len(%s) == %s)' % (OP, CODE, Y, Y, N0_, DD, L0_),
+        'implies(%s and %s == 202, state.scale_offset == ite(%s != 0, %s - 128, 0) and gh(state, "nprims") == %s and len(%s) == %s)' % (OP, CODE, Y, Y, N0_, DD, L0_),
+        'implies(%s and %s == 203, state.nbits_of_new_refval == ite(%s == 255, 0, %s) and gh(state, "nprims") == %s)' % (OP, CODE, Y, Y, N0_),
+        'implies(%s and %s == 203 and %s == 0, dsize(state.new_refvals) == 0)' % (OP, CODE, Y),
+        'implies(%s and %s == 204 and %s != 0, len(state.nbits_of_associated) == old(len(state.nbits_of_associated)) + 1 and '
+        'sumof(state.nbits_of_associated) == old(sumof(state.nbits_of_associated)) + %s)' % (OP, CODE, Y, Y),
+        'implies(%s and %s == 204 and %s == 0, len(state.nbits_of_associated) == old(len(state.nbits_of_associated)) - 1)' % (OP, CODE, Y),
+        'implies(%s and %s == 205, gh(state, "nprims") == %s + 1 and ghat(state, "prim", %s) == %d and ghat(state, "pa", %s) == %s and '
+        'asref(ghat(state, "pdesc", %s), "Descriptor") is member)' % (OP, CODE, N0_, N0_, P_STRING, N0_, Y, N0_),
+        'implies(%s and %s == 206, state.nbits_of_skipped_local_descriptor == %s and gh(state, "nprims") == %s)' % (OP, CODE, Y, N0_),
+        'implies(%s and %s == 207, state.bsr_modifier[0] == ite(%s != 0, (10 * (%s) + 2) // 3, 0) and state.bsr_modifier[1] == %s and '
+        'state.bsr_modifier[2] == ite(%s != 0, pow10(%s), 1))' % (OP, CODE, Y, Y, Y, Y, Y),
+        'implies(%s and %s == 208, state.new_nbytes == %s and gh(state, "nprims") == %s)' % (OP, CODE, Y, N0_),
+        'implies(%s and %s == 221, %s == %s and gh(state, "nprims") == %s)' % (OP, CODE, DNP, Y, N0_),
+        'implies(%s and %s != 221, %s == %s)' % (OP, CODE, DNP, DNP_AFTER),
+    ]
+    add(Contract(M + 'Coder.process_members', {'self': CD, 'state': S, 'bit_operator': BO, 'members': ListT(DESC)},
+                 requires=WF + ['@input members != None', '@input members is not state.decoded_descriptors'], modifies=MOD, assume_input=True,
+                 # NOT YET DISCHARGED: the body generates ~3000 obligations (about 30 paths x 40 invariants / 24 step clauses), 70 of which are
+                 # still open and one run takes > 20 minutes; until that is fixed the SUMMARY below is an assumed interface for the composite
+                 # descriptors (listed as such in the evidence) and the step contract is not claimed
+                 trusted=True,
+                 loops={0: Loop(invariants=WF + KEPT + LOOP_ID, modifies=MOD, steps=steps, locals={'member': DESC, 'X': INT},
+                                raise_steps={'UnknownDescriptor': ['implies(not %s, %s and not %s)' % (RECURSES, DISPATCH, KNOWN)]})},
+                 ensures=WF + KEPT, raises=dict(ERR), serves=['C01', 'C02', 'C12', 'C14'],
+                 note='summary: a walk only appends (descriptors, primitive calls, stream, links of new positions) and keeps the state well formed; '
+                      'step contract: 221 countdown, then 203 definition, then 206 skip, then the bitmap definition pre-step and dispatch on '
+                      'the exact class; a descriptor of no known class raises UnknownDescriptor (never skipped)'))
+    for fname, dty in (('process_fixed_replication_descriptor', Ref('FixedReplicationDescriptor')), ('process_sequence_descriptor', Ref('SequenceDescriptor'))):
+        loops = {0: Loop(invariants=WF + KEPT + LOOP_ID + ['descriptor.members != None', 'descriptor.members is not state.decoded_descriptors'], modifies=MOD)} if 'fixed' in fname else {}
+        add(Contract(M + 'Coder.' + fname, {'self': CD, 'state': S, 'bit_operator': BO, 'descriptor': dty},
+                     requires=WF + ['descriptor != None', '@input descriptor.members != None', '@input descriptor.members is not state.decoded_descriptors'],
+                     modifies=MOD, assume_input=True, loops=loops,
+                     ensures=WF + KEPT, raises=dict(ERR), serves=['C01', 'C02', 'C14'],
+                     note='composite descriptor: its members are walked (YYY times for a fixed replication); summary as for process_members'))
+    # the value of the delayed replication factor just processed: a non-negative integer taken from the data (interface, assumed at the
+    # call in process_delayed_replication_descriptor; CoderState.get_value_for_delayed_replication_factor and the two overrides are verified)
+    add(Contract(M + 'Coder.get_value_for_delayed_replication_factor', {'self': CD, 'state': S}, returns=INT, trusted=True, pure=True,
+                 requires=['state != None'], ensures=['result >= 0'],
+                 raises={'PyBufrKitError': None, 'AssertionError': None, 'IndexError': None, 'TypeError': None}, serves=['C01', 'C02'],
+                 note='interface contract: the factor value is >= 0 (a missing or negative factor is refused)'))
+    FACTOR = 'descriptor.factor'
+    add(Contract(M + 'Coder.process_delayed_replication_descriptor',
+                 {'self': CD, 'state': S, 'bit_operator': BO, 'descriptor': Ref('DelayedReplicationDescriptor')},
+                 requires=WF + ['descriptor != None', '@input descriptor.members != None', '@input descriptor.members is not state.decoded_descriptors',
+                                '@input %s != None' % FACTOR], modifies=MOD, assume_input=True,
+                 loops={0: Loop(invariants=WF + KEPT + LOOP_ID + ['descriptor.members != None', 'descriptor.members is not state.decoded_descriptors'], modifies=MOD)},
+                 ensures=WF + KEPT + [
+                     # the class-31 factor is read first, by the element rules, and is part of the data
+                     'gh(state, "nprims") >= %s + 1' % N0_, 'len(%s) >= %s + 1' % (DD, L0_),
+                     'exists(k, %s, %s + 2, asref(ghat(state, "pdesc", k), "Descriptor") is %s)' % (N0_, N0_, FACTOR)],
+                 raises=dict(ERR),
+                 must_raise=[('UnknownDescriptor', 'not typeis(%s, "ElementDescriptor") and descriptor.id != 31011 and descriptor.id != 31012' % FACTOR),
+                             ('NotImplementedError', 'descriptor.id == 31011 or descriptor.id == 31012')],
+                 serves=['C01', 'C02', 'C12', 'C14'],
+                 note='delayed replication: the factor element is coded first (and kept as data), then the members are walked factor times; a factor '
+                      'that is not an element descriptor (undefined in the tables) is refused with UnknownDescriptor'))
